@@ -624,7 +624,7 @@ class _Merger(object):
                                  .format(existing))
         else:
             self.posargs.append(self._concile_meta(existing, other))
-            _add_sources(self.src, existing.name, src)
+            _add_sources(self.src, existing.name, src, o_src)
 
     def _merge_unbalanced_pok(
             self, existing, src,
